@@ -46,7 +46,7 @@ theorem regroupL_groupedKL (o : Oracles) (g : Grouping) (p : Pt) : GroupedKL o g
   | map m => exact Or.inl ⟨m, rfl, rfl⟩
   | _ => exact Or.inr ⟨rfl, rfl⟩
 
-theorem upperX_grouped (o : Oracles) (a : VecOp) (g : Grouping) (hg : chosenGrouping a.byPrefix a.bySuffix = some g)
+theorem upperX_grouped (o : Oracles) (a : VecOp) (g : Grouping) (hg : a.grouping = g)
     (topk : Option TopOp) (p0 : List Pt) : ∀ p ∈ upperX o (some a) topk p0, GroupedKL o g p.key p.labels := by
   have h1 : ∀ p ∈ cmpStage a.cmp (aggStageX o a p0), GroupedKL o g p.key p.labels := by
     apply cmpStage_labels
@@ -63,7 +63,7 @@ theorem upperX_grouped (o : Oracles) (a : VecOp) (g : Grouping) (hg : chosenGrou
   | some t => exact h1 p (topkStage_sub _ _ _ p (cmpStage_labels _ _ (fun x => x ∈ _) (fun x hx => hx) p hp))
 
 theorem output_series_groupedX (o : Oracles) (c : MCtx) (hn : c.namesOk) (d : LokiDb) (q : MetricQueryX) (a : VecOp)
-    (g : Grouping) (hsup : supportedX q = true) (ha : q.agg = some a) (hg : chosenGrouping a.byPrefix a.bySuffix = some g) :
+    (g : Grouping) (hsup : supportedX q = true) (ha : q.agg = some a) (hg : a.grouping = g) :
     ∀ r ∈ evalSelA o (d.toDbM c) (planMetricX c q), GroupedKL o g (r.get "fingerprint") (r.get "labels") := by
   intro r hr
   have hmem : normRow r ∈ evalMetricX o c d q := by
